@@ -56,7 +56,7 @@ func c16One(op int, mask, f, a uint8) []string {
 
 func checkC16(c *Ctx) {
 	c.Level = "model_checking"
-	c.Rule = "complete enumeration: {GetFlag,SetFlag,ResetFlag} x 256 masks x 256 F x 256 A; SetU16/U16/Hi/Lo on all 65536 values; 8 flag constants. Non-trivial = the call must change or report something (mask&F != 0 for Get/Reset, mask&^F != 0 for Set), counted."
+	c.Rule = "complete enumeration: {GetFlag,SetFlag,ResetFlag} x 256 masks x 256 F x 256 A; SetU16/U16/Hi/Lo on all 65536 values; the unkeyed literal Register{hi, lo}; 8 flag constants. Non-trivial = the call must change or report something (mask&F != 0 for Get/Reset, mask&^F != 0 for Set), counted."
 	c.Bound = "complete space"
 	names := []string{"GetFlag", "SetFlag", "ResetFlag"}
 	var nontrivial [16]int64
@@ -107,6 +107,16 @@ func checkC16(c *Ctx) {
 		c.Evaluations++
 		if v != 0 {
 			c.Nontrivial++
+		}
+	}
+	// the layout of Register is API too: an unkeyed literal z80.Register{hi, lo}, or a register dump loaded in
+	// declaration order, puts the first value into the high byte
+	{
+		r := z80.Register{0x12, 0x34} //nolint:govet // unkeyed on purpose
+		c.Evaluations++
+		c.Nontrivial++
+		if r.Hi != 0x12 || r.Lo != 0x34 || r.U16() != 0x1234 {
+			c.Report("c16/register", 65536, "", c16Case{Op: "Register{0x12, 0x34}", V: 0x1234}, []string{fmt.Sprintf("the unkeyed literal z80.Register{0x12, 0x34} gives Hi=%02X Lo=%02X U16()=%04X: the declaration order of the two fields changed (Hi first, then Lo)", r.Hi, r.Lo, r.U16())})
 		}
 	}
 	// constants
